@@ -430,6 +430,7 @@ Qed.
 Lemma sort_elems_forall (P : list byte -> Prop) l : Forall P l -> Forall P (sort_elems l).
 Proof. induction 1 as [|x l Hx Hl IH]; cbn; [constructor|]. now apply insert_sorted_forall. Qed.
 From Coq Require Import Permutation.
+From Coq Require Sorted.
 Lemma insert_sorted_perm x l : Permutation (x :: l) (insert_sorted x l).
 Proof.
   induction l as [|y l IH]; cbn; [auto|]. destruct (bytes_leb x y); [auto|].
@@ -459,6 +460,77 @@ Proof.
   - exact Hel'.
 Qed.
 
+(** the generic insertion sort: same facts, plus stability *)
+Lemma insert_by_len leb x l : length (insert_by leb x l) = S (length l).
+Proof. induction l as [|y l IH]; [reflexivity|]. cbn. destruct (leb x y); cbn; auto. Qed.
+Lemma sort_by_len leb l : length (sort_by leb l) = length l.
+Proof. induction l as [|x l IH]; [reflexivity|]. cbn [sort_by fold_right length]. fold (sort_by leb l). now rewrite insert_by_len, IH. Qed.
+Lemma insert_by_forall leb (P : list byte -> Prop) x l : P x -> Forall P l -> Forall P (insert_by leb x l).
+Proof. intros Hx H. induction H as [|y l Hy Hl IH]; cbn; [auto|]. destruct (leb x y); auto. Qed.
+Lemma sort_by_forall leb (P : list byte -> Prop) l : Forall P l -> Forall P (sort_by leb l).
+Proof. induction 1 as [|x l Hx Hl IH]; cbn; [constructor|]. now apply insert_by_forall. Qed.
+Lemma insert_by_perm leb x l : Permutation (x :: l) (insert_by leb x l).
+Proof.
+  induction l as [|y l IH]; cbn; [auto|]. destruct (leb x y); [auto|].
+  eapply perm_trans; [apply perm_swap|]. now constructor.
+Qed.
+Theorem sort_by_perm leb l : Permutation l (sort_by leb l).
+Proof.
+  induction l as [|x l IH]; cbn; [constructor|].
+  eapply perm_trans; [apply perm_skip, IH|apply insert_by_perm].
+Qed.
+
+Section KeySort.
+Variable key : list byte -> N.
+Let kleb (a b : list byte) : bool := key a <=? key b.
+(** inserting moves the new element only past elements with a strictly smaller key *)
+Lemma insert_by_filter x l k :
+  filter (fun z => key z =? k) (insert_by kleb x l) = filter (fun z => key z =? k) (x :: l).
+Proof.
+  induction l as [|y l IH]; [reflexivity|]. cbn [insert_by]. unfold kleb at 1.
+  destruct (key x <=? key y) eqn:E; [reflexivity|].
+  cbn [filter] in *. rewrite IH.
+  destruct (key x =? k) eqn:Ex; destruct (key y =? k) eqn:Ey; try reflexivity.
+  exfalso. lia.
+Qed.
+(** stability: the elements of any one key keep their relative order *)
+Theorem sort_by_stable l k :
+  filter (fun z => key z =? k) (sort_by kleb l) = filter (fun z => key z =? k) l.
+Proof.
+  induction l as [|x l IH]; [reflexivity|]. cbn [sort_by fold_right]. fold (sort_by kleb l).
+  rewrite insert_by_filter. cbn [filter]. now rewrite IH.
+Qed.
+Lemma insert_by_sorted x l :
+  Sorted.StronglySorted (fun a b => key a <= key b) l -> Sorted.StronglySorted (fun a b => key a <= key b) (insert_by kleb x l).
+Proof.
+  induction 1 as [|y l Hs IH Hy]; cbn [insert_by]; [repeat constructor|]. unfold kleb at 1.
+  destruct (key x <=? key y) eqn:E.
+  - constructor; [constructor; assumption|]. constructor; [lia|].
+    eapply Forall_impl; [|exact Hy]. intros a Ha. cbn in *. lia.
+  - constructor; [exact IH|]. apply insert_by_forall; [lia|exact Hy].
+Qed.
+Theorem sort_by_sorted l : Sorted.StronglySorted (fun a b => key a <= key b) (sort_by kleb l).
+Proof. induction l as [|x l IH]; cbn; [constructor|]. now apply insert_by_sorted. Qed.
+End KeySort.
+
+Theorem sort_with_refines leb p buf cap xs pad rest :
+  Rep p buf cap xs pad rest ->
+  exists buf', sort_with leb p buf = (buf', Ok tt) /\ Rep p buf' cap (sort_by leb xs) pad rest.
+Proof.
+  intros R. unfold sort_with. rewrite (rep_visible _ _ _ _ _ _ R).
+  destruct (rep_header _ _ _ _ _ _ R) as (H1 & H2 & H3).
+  pose proof (rep_elems _ _ _ _ _ _ R) as Hel.
+  pose proof (sort_by_forall leb _ _ Hel) as Hel'.
+  pose proof (concat_len p xs Hel) as Hc. pose proof (concat_len p _ Hel') as Hc'.
+  assert (Hl : len (sort_by leb xs) = len xs) by (unfold len; now rewrite sort_by_len).
+  rewrite (rep_buf _ _ _ _ _ _ R). rewrite (app_assoc _ pad).
+  rewrite (write_at_app _ (concat xs) rest (concat (sort_by leb xs))); [|now symmetry|unfold len in *; nia].
+  eexists. split; [reflexivity|].
+  constructor; rewrite ?Hl; try apply R.
+  - now rewrite <- !app_assoc.
+  - exact Hel'.
+Qed.
+
 (** * Histories: the list view refines a capacity-bounded vector *)
 Definition vec_step (p : params) (cap : N) (xs : list (list byte)) (o : op) : list (list byte) :=
   match o with
@@ -467,6 +539,7 @@ Definition vec_step (p : params) (cap : N) (xs : list (list byte)) (o : op) : li
   | LRemove i => if i <? len xs then firstn (N.to_nat i) xs ++ skipn (S (N.to_nat i)) xs else xs
   | LSet i item => if i <? len xs then firstn (N.to_nat i) xs ++ item :: skipn (S (N.to_nat i)) xs else xs
   | LSort => sort_elems xs
+  | LSortKey => sort_by key4_leb xs
   end.
 Definition lv_step (p : params) (buf : list byte) (o : op) : list byte :=
   match o with
@@ -475,6 +548,7 @@ Definition lv_step (p : params) (buf : list byte) (o : op) : list byte :=
   | LRemove i => fst (remove p buf i)
   | LSet i item => fst (set_elem p buf i item)
   | LSort => fst (sort p buf)
+  | LSortKey => fst (sort_with key4_leb p buf)
   end.
 Definition op_ok (p : params) (o : op) : Prop :=
   match o with LPush item | LSet _ item => elem_ok p item | _ => True end.
@@ -490,7 +564,7 @@ Theorem step_refines p buf cap xs pad rest o :
   wf_params p -> Rep p buf cap xs pad rest -> op_ok p o ->
   exists rest', Rep p (lv_step p buf o) cap (vec_step p cap xs o) pad rest'.
 Proof.
-  intros Hwf R Ho. destruct o as [|item|i|i item|]; cbn [lv_step vec_step op_ok] in *.
+  intros Hwf R Ho. destruct o as [|item|i|i item| |]; cbn [lv_step vec_step op_ok] in *.
   - (* init on an open buffer *)
     pose proof (rep_unpack _ _ _ _ _ _ R) as Hu. pose proof (unpack_spec p buf) as Hs. rewrite Hu in Hs.
     destruct Hs as (Hlay & _ & Hcap & _).
@@ -521,6 +595,7 @@ Proof.
       destruct (split_firstn_skipn a x b i Ha) as [-> ->]. eauto.
     + destruct H as (e & ->). eauto.
   - destruct (sort_refines p buf cap xs pad rest R) as (buf' & -> & R'). eauto.
+  - destruct (sort_with_refines key4_leb p buf cap xs pad rest R) as (buf' & -> & R'). eauto.
 Qed.
 
 Theorem run_refines p ops : forall buf cap xs pad rest,
